@@ -3,7 +3,8 @@ Model of `XalanDOMStringPool` over `XalanDOMStringHashTable` (src/xalanc/Platfor
 a fixed number of buckets, each a vector of pointers to pooled strings (`id` = allocation number in the
 pool's string allocator); `find` looks only into bucket `hash(s) % m_bucketCount` and compares length and
 characters; `get` returns the pooled string for equal characters or allocates and inserts a new one; the
-empty string is never pooled (`s_emptyString`).  `none` = `% 0` (a table constructed with no buckets).
+empty string is never pooled (`s_emptyString`).  Keys are length-carrying unit sequences (`get(ptr, len)`,
+`get(const XalanDOMString&)` = `get(c_str(), length())`): U+0000 inside a key is an ordinary unit.  `none` = `% 0` (a table constructed with no buckets).
 The hash is `XalanDOMString::hash` = `hash_non_terminated_array<XalanDOMChar>` in 64-bit arithmetic.
 Core Lean only.
 -/
@@ -41,6 +42,12 @@ def get (p : SPool) (cs : List Nat) : Option (SPool × Option Nat) :=
       | none =>
         ({ p with strings := p.strings ++ [cs], count := p.count + 1,
                   buckets := p.buckets.modify i (· ++ [p.strings.length]) }, some p.strings.length)
+
+/-- `get` **as written before the repair** `proposed/C20-stringpool-leading-nul.diff`: the test for the
+empty key looks at the first unit instead of the length, so a key that starts with U+0000 is answered with
+the shared empty string -/
+def getAsWritten (p : SPool) (cs : List Nat) : Option (SPool × Option Nat) :=
+  if cs = [] ∨ cs.head? = some 0 then some (p, none) else get p cs
 
 /-- `clear()` -/
 def clear (p : SPool) : SPool :=
